@@ -282,12 +282,16 @@ def write_evidence(pid, tier, seed, t0, meta, results, replays, canary_report, i
     solver_s = sum(r.get("solver", {}).get("solver_s", 0) for r in ok)
     feas_s = sum(r.get("solver", {}).get("feasibility_s", 0) for r in ok)
     feas_q = sum(r.get("solver", {}).get("feasibility_queries", 0) for r in ok)
+    enum_level = level in ("fault_enumeration", "exploration")
     cov = {
-        "evaluations": max(1, len(obl) + feas_q),
-        "distinct_nontrivial": max(distinct, 0),
-        "rule": "one evaluation = one SMT query (obligation or path-feasibility); distinct_nontrivial counts distinct "
-                "(case, obligation label) pairs actually sent to the solver - obligations whose two sides are the "
-                "syntactically identical term are skipped and not counted",
+        "evaluations": max(1, npaths if enum_level else len(obl) + feas_q),
+        "distinct_nontrivial": max(npaths if enum_level else distinct, 0),
+        "rule": ("one evaluation = one explored path = one distinct decision script (fault schedule / interrupt position / random outcomes) "
+                 "executed on the real code; scripts are distinct by construction of the depth-first enumeration; non-trivial = the script "
+                 "was executed to completion and its containment predicates evaluated") if enum_level else
+                ("one evaluation = one SMT query (obligation or path-feasibility); distinct_nontrivial counts distinct "
+                 "(case, obligation label) pairs; obligations whose normal form is the zero polynomial or whose two sides are the "
+                 "identical term are flagged 'syntactic' in the case records"),
         "samples": samples,
         "states": max(1, npaths),
         "transitions": max(1, ndec + npaths),
